@@ -1242,6 +1242,9 @@ class Interp:
             known = s.facts.get(('itercount', source)) if source else None
             least = s.facts.get(('itermin', source), 0) if source else 0
             known, least = _count_from_truth(s, source, known, least)
+            if source is None:
+                # a fresh copy of a sequence has as many elements as the sequence had
+                known, least = _count_from_truth(s, _copied_source(stmt.iter), known, least)
             if (known is None or known == count) and count >= least:
                 done = s.fork()
                 if source:
@@ -3560,6 +3563,25 @@ def _target_subexprs(target) -> list:
     if isinstance(target, ast.Starred):
         return _target_subexprs(target.value)
     return []
+
+
+def _copied_source(expr):
+    """``X`` for ``X[:]``, ``X.copy()``, ``list(X)``, ``tuple(X)`` over a name or attribute
+    path ``X`` (the copy made where it is written has the length X has there)"""
+    inner = None
+    if isinstance(expr, ast.Subscript) and isinstance(expr.slice, ast.Slice) and \
+            expr.slice.lower is None and expr.slice.upper is None and expr.slice.step is None:
+        inner = expr.value
+    elif isinstance(expr, ast.Call) and not expr.keywords:
+        if isinstance(expr.func, ast.Attribute) and expr.func.attr == 'copy' and \
+                not expr.args:
+            inner = expr.func.value
+        elif isinstance(expr.func, ast.Name) and expr.func.id in ('list', 'tuple') and \
+                len(expr.args) == 1:
+            inner = expr.args[0]
+    if isinstance(inner, (ast.Name, ast.Attribute)):
+        return _dotted(inner)
+    return None
 
 
 def _count_from_truth(st, source, known, least):
